@@ -2,6 +2,7 @@ import Drv.Cks
 import Drv.PkgLen
 import Drv.AmlScalars
 import Drv.Tables
+import Drv.Fixed
 open Drv
 
 /-- one line `stream case… | impl…` → failures -/
@@ -23,6 +24,8 @@ def checkLine (line : String) : List Fail :=
       | "uuid" => checkUuid case impl
       | "tbl" => checkTbl case impl
       | "tblbig" => checkTbl case impl
+      | "ent" => checkEnt case impl
+      | "fix" => checkFix case impl
       | _ => [⟨"corr", "-", "driver", s!"unknown stream {stream}"⟩]
     | [] => [⟨"corr", "-", "driver", "empty line"⟩]
   | _ => [⟨"corr", "-", "driver", "malformed line (no ' | ')"⟩]
@@ -32,8 +35,10 @@ partial def loop (h : IO.FS.Stream) (out : IO.FS.Stream) (n bad : Nat) : IO (Nat
   if line.isEmpty then return (n, bad)
   let line := line.trimAscii.toString
   if line.isEmpty then loop h out n bad else
-  let fs := checkLine line
-  for f in fs do out.putStrLn (f.render line)
+  let all := checkLine line
+  let fs := all.filter (·.kind ≠ "note")
+  for f in all do
+    if f.kind = "note" then out.putStrLn s!"N {f.check} {f.detail}" else out.putStrLn (f.render line)
   loop h out (n + 1) (if fs.isEmpty then bad else bad + 1)
 
 def main (_args : List String) : IO UInt32 := do
